@@ -24,7 +24,10 @@ type chainResp struct {
 type chainVec struct {
 	Mws    []string  `json:"mws"`
 	HK     string    `json:"hk"`
-	Split  int       `json:"split"`
+	K      int       `json:"k"` // the inner Wrap call gets list[k:]
+	J      int       `json:"j"` // the outer one list[:j]  (j >= k; j > k: overlapping sub-slices)
+	Spare  int       `json:"spare"`
+	Rounds int       `json:"rounds"`
 	Visits [][]any   `json:"visits"`
 	Server []int     `json:"server"`
 	Resp   chainResp `json:"resp"`
@@ -55,19 +58,38 @@ func (m *recMw) Wrap(h http.Handler) http.Handler {
 	})
 }
 
-// runChain builds the chain of v with the real Wrap and sends one request
-// through it.
-func runChain(mws []string, hk string, split int) (visits [][]any, server []int, resp chainResp, samereq bool) {
-	visits = [][]any{}
+// chainRound is what one round (two nested Wrap calls + one request) did.
+type chainRound struct {
+	Visits [][]any   `json:"visits"`
+	Server []int     `json:"server"`
+	Resp   chainResp `json:"resp"`
+	same   bool
+}
+
+// runChain owns ONE backing array of middlewares (with spare capacity whose
+// slots hold sentinels) and, rounds times in a row, builds
+// Wrap(Wrap(h, list[k:]...), list[:j]...) from sub-slices of it - passed
+// with `...`, i.e. without a copy, exactly as a caller holding a
+// []Middleware would - and sends one request through the result.  intact
+// tells whether the whole array (up to its capacity) still holds what the
+// caller put there after every round.
+func runChain(mws []string, hk string, k, j, spare, rounds int) (out []chainRound, intact bool) {
+	var visits [][]any
 	var reqs []*http.Request
-	list := make([]httputil.Middleware, len(mws))
-	for i, k := range mws {
-		if k == "srvhdr" {
-			list[i] = httputil.ServerHeaderMiddleware("srv" + strconv.Itoa(i+1))
-		} else {
-			list[i] = &recMw{idx: i + 1, kind: k, log: &visits, reqs: &reqs}
+	n := len(mws)
+	backing := make([]httputil.Middleware, n+spare)
+	for i := range backing {
+		switch {
+		case i >= n:
+			backing[i] = &recMw{idx: -(i + 1), kind: "pass", log: &visits, reqs: &reqs} // sentinel
+		case mws[i] == "srvhdr":
+			backing[i] = httputil.ServerHeaderMiddleware("srv" + strconv.Itoa(i+1))
+		default:
+			backing[i] = &recMw{idx: i + 1, kind: mws[i], log: &visits, reqs: &reqs}
 		}
 	}
+	orig := slices.Clone(backing)
+	list := backing[:n] // len n, cap n+spare
 	var h http.Handler
 	if hk == "plain" {
 		h = httputil.PlainTextHandler("plain")
@@ -78,34 +100,42 @@ func runChain(mws []string, hk string, split int) (visits [][]any, server []int,
 			_, _ = w.Write([]byte("h"))
 		})
 	}
-	var innerH http.Handler
-	switch {
-	case split == len(mws):
-		innerH = httputil.Wrap(h) // no middlewares at all
-	default:
-		innerH = httputil.Wrap(h, list[split:]...)
-	}
-	var outer http.Handler
-	if split == 0 {
-		outer = httputil.Wrap(innerH, []httputil.Middleware(nil)...) // nil list
-	} else {
-		outer = httputil.Wrap(innerH, list[:split]...)
-	}
-	rr := &respRec{hdr: http.Header{}}
-	req := httptest.NewRequest(http.MethodGet, "/chain", nil)
-	outer.ServeHTTP(rr, req)
-	server = []int{}
-	for _, v := range rr.hdr.Values("Server") {
-		server = append(server, ridOf(v))
-	}
-	resp = chainResp{Status: rr.status(), Body: string(rr.body), CType: rr.hdr.Get("Content-Type")}
-	samereq = true
-	for _, r := range reqs {
-		if r != req {
-			samereq = false
+	intact = true
+	for r := 0; r < rounds; r++ {
+		visits, reqs = [][]any{}, nil
+		var innerH http.Handler
+		if k == n {
+			innerH = httputil.Wrap(h) // no middlewares at all
+		} else {
+			innerH = httputil.Wrap(h, list[k:]...)
+		}
+		var outer http.Handler
+		if j == 0 {
+			outer = httputil.Wrap(innerH, []httputil.Middleware(nil)...) // nil list
+		} else {
+			outer = httputil.Wrap(innerH, list[:j]...) // cap reaches into list[j:]
+		}
+		rr := &respRec{hdr: http.Header{}}
+		req := httptest.NewRequest(http.MethodGet, "/chain", nil)
+		outer.ServeHTTP(rr, req)
+		cr := chainRound{Visits: visits, Server: []int{}, same: true}
+		for _, v := range rr.hdr.Values("Server") {
+			cr.Server = append(cr.Server, ridOf(v))
+		}
+		cr.Resp = chainResp{Status: rr.status(), Body: string(rr.body), CType: rr.hdr.Get("Content-Type")}
+		for _, q := range reqs {
+			if q != req {
+				cr.same = false
+			}
+		}
+		out = append(out, cr)
+		for i := range orig {
+			if backing[i] != orig[i] {
+				intact = false
+			}
 		}
 	}
-	return visits, server, resp, samereq
+	return out, intact
 }
 
 // respRec is a minimal client-side writer with net/http's status rule (no
@@ -132,6 +162,10 @@ func (r *respRec) status() int {
 		return http.StatusOK
 	}
 	return r.code
+}
+
+func chainKey(hk string, mws []string, k, j, spare int) string {
+	return fmt.Sprintf("Wrap(Wrap(h=%s, mws[%d:]...), mws[:%d]...) over one slice mws=%v (spare capacity %d)", hk, k, j, mws, spare)
 }
 
 func visitsEqual(a, b [][]any) bool {
@@ -163,7 +197,7 @@ func replayChain(args []string) error {
 	if err != nil {
 		return err
 	}
-	n := 0
+	n, calls := 0, 0
 	dd := vh.NewDedup()
 	err = vh.ForEachVector(args[0], func(_ int, raw []byte) error {
 		var v chainVec
@@ -177,30 +211,38 @@ func replayChain(args []string) error {
 		if n%701 == 1 {
 			res.Sample(v)
 		}
-		key := fmt.Sprintf("Wrap(h=%s, %v) nested at %d", v.HK, v.Mws, v.Split)
-		var visits [][]any
-		var server []int
-		var resp chainResp
-		var same bool
-		pv, panicked := vh.Try(func() { visits, server, resp, same = runChain(v.Mws, v.HK, v.Split) })
-		switch {
-		case panicked:
+		key := chainKey(v.HK, v.Mws, v.K, v.J, v.Spare)
+		rounds := max(v.Rounds, 1)
+		calls += 2 * rounds
+		var out []chainRound
+		var intact bool
+		pv, panicked := vh.Try(func() { out, intact = runChain(v.Mws, v.HK, v.K, v.J, v.Spare, rounds) })
+		if panicked {
 			res.Mismatch(key, fmt.Sprintf("panic: %v", pv), v)
-		case !visitsEqual(visits, v.Visits):
-			res.Mismatch(key, fmt.Sprintf("visit order %v, the specification requires %v", normVisits(visits), normVisits(v.Visits)), v)
-		case !slices.Equal(server, v.Server):
-			res.Mismatch(key, fmt.Sprintf("Server header values from middlewares %v, want %v", server, v.Server), v)
-		case resp != v.Resp:
-			res.Mismatch(key, fmt.Sprintf("response %+v, want %+v", resp, v.Resp), v)
-		case !same:
-			res.Mismatch(key, "a pass-through chain handed a different *http.Request to a later stage", v)
+			return nil
+		}
+		for r, cr := range out {
+			where := fmt.Sprintf("Wrap call round %d over the same slice: ", r+1)
+			switch {
+			case !visitsEqual(cr.Visits, v.Visits):
+				res.Mismatch(key, where+fmt.Sprintf("visit order %v, the specification requires %v", normVisits(cr.Visits), normVisits(v.Visits)), v)
+			case !slices.Equal(cr.Server, v.Server):
+				res.Mismatch(key, where+fmt.Sprintf("Server header values from middlewares %v, want %v", cr.Server, v.Server), v)
+			case cr.Resp != v.Resp:
+				res.Mismatch(key, where+fmt.Sprintf("response %+v, want %+v", cr.Resp, v.Resp), v)
+			case !cr.same:
+				res.Mismatch(key, where+"a pass-through chain handed a different *http.Request to a later stage", v)
+			}
+		}
+		if !intact {
+			res.Mismatch(key, "Wrap modified the caller's []Middleware (contents up to its capacity differ after the call)", v)
 		}
 		return nil
 	})
 	if err != nil {
 		return err
 	}
-	return res.Close(map[string]any{"replayed": n, "distinct_nontrivial": dd.N()})
+	return res.Close(map[string]any{"replayed": n, "wrap_calls": calls, "distinct_nontrivial": dd.N()})
 }
 
 // recordChain drives Wrap with seeded random chains far longer than TLC's
@@ -234,16 +276,21 @@ func recordChain(args []string) error {
 			mws[i] = k
 		}
 		hk := []string{"rec", "plain"}[rnd.IntN(2)]
-		split := rnd.IntN(n + 1)
-		var visits [][]any
-		var server []int
-		var resp chainResp
-		pv, panicked := vh.Try(func() { visits, server, resp, _ = runChain(mws, hk, split) })
+		k := rnd.IntN(n + 1)
+		j := k
+		if rnd.IntN(3) == 0 {
+			j = k + rnd.IntN(n-k+1) // overlapping sub-slices
+		}
+		spare := []int{0, 0, 1, 3}[rnd.IntN(4)]
+		rounds := 2 + rnd.IntN(2)
+		var out []chainRound
+		var intact bool
+		pv, panicked := vh.Try(func() { out, intact = runChain(mws, hk, k, j, spare, rounds) })
 		if panicked {
-			res.Mismatch(fmt.Sprintf("Wrap(h=%s, %v) nested at %d", hk, mws, split), fmt.Sprintf("panic: %v", pv), nil)
+			res.Mismatch(chainKey(hk, mws, k, j, spare), fmt.Sprintf("panic: %v", pv), nil)
 			continue
 		}
-		tr.Emit(map[string]any{"mws": mws, "hk": hk, "split": split, "visits": visits, "server": server, "resp": resp})
+		tr.Emit(map[string]any{"mws": mws, "hk": hk, "k": k, "j": j, "spare": spare, "rounds": out, "intact": intact})
 	}
 	if err := tr.Close(); err != nil {
 		return err
